@@ -20,7 +20,7 @@ PROPS = {
         "assumptions": ["atoms written as a pool or classically negated are outside the theorems' pool_free premise "
                         "(known finding C18-pool)"],
     },
-    "C01": {"families": ["norm_none", "norm_preprocess", "cleanup_execute"], "oracle": "sem"},
+    "C01": {"families": ["api_optimize", "norm_none", "cleanup_execute", "unused_execute", "projection_execute"], "oracle": "sem"},
     "C02": {"families": ["unify_pairs", "unify_sequences"], "oracle": "sem"},
     "C03": {"families": ["binding_body", "binding_head", "norm_inline", "cleanup_mappings", "dep_create_domain"], "oracle": "struct"},
     "C04": {"families": ["unique_variables", "unique_names", "binding_body"], "oracle": "struct"},
@@ -30,14 +30,14 @@ PROPS = {
     "C17": {"families": [], "oracle": "struct", "quick_cap": 150},
     "C20": {"families": ["dep_static", "dep_domains", "dep_create_domain", "dep_names", "dep_chain"], "oracle": "struct"},
     "C08": {"families": ["cleanup_mappings", "cleanup_superseeded", "cleanup_apply", "cleanup_execute_core", "cleanup_execute"], "oracle": "sem"},
-    "C09": {"families": [], "oracle": "sem"},
+    "C09": {"families": ["unused_anonymize", "unused_usage", "unused_project", "unused_remove", "unused_single_copies", "unused_execute_core", "unused_execute"], "oracle": "sem"},
     "C10": {"families": [], "oracle": "sem"},
     "C11": {"families": [], "oracle": "sem"},
     "C12": {"families": [], "oracle": "sem"},
-    "C13": {"families": [], "oracle": "sem"},
+    "C13": {"families": ["sumchains_agg_analytics", "sumchains_at_most_rule", "sumchains_init", "sumchains_get_trigger", "sumchains_element_passes", "sumchains_replace_elements", "sumchains_get_var", "sumchains_replace_optimize", "sumchains_execute"], "oracle": "sem"},
     "C14": {"families": [], "oracle": "sem"},
-    "C15": {"families": ["unify_pairs", "unify_unpool", "unify_sequences"], "oracle": "sem"},
-    "C16": {"families": [], "oracle": "sem"},
+    "C15": {"families": ["unify_pairs", "unify_sequences", "inline_is_single", "inline_transform_args", "inline_body_aggregate", "inline_new_body_elements", "inline_minimize", "inline_rule_for_agg", "inline_rule_for_body", "inline_execute"], "oracle": "sem"},
+    "C16": {"families": ["projection_subsets", "projection_good_split", "projection_rule", "projection_execute_core", "projection_execute"], "oracle": "sem"},
     "C19": {
         "families": ["verify_enable"],
         "oracle": "c19",
